@@ -1,2 +1,3 @@
 import Model.Scan
 import Model.RunLoop
+import Model.Metadata
